@@ -235,6 +235,15 @@ pub fn mk(paths: Vec<JPath>) -> Arc<Vec<(JPath, jsonb::jsonpath::JsonPath<'stati
                 out.push((p.clone(), q));
             }
         }
+        // the other documented spelling of "not equal"
+        if text.contains(" != ") {
+            let alt: &'static str = Box::leak(text.replace(" != ", " <> ").into_boxed_str());
+            if let Some(q) = guard(|| jsonb::jsonpath::parse_json_path(alt.as_bytes()).ok()).ok().flatten() {
+                if format!("{:?}", q) != format!("{:?}", i) {
+                    out.push((p.clone(), q));
+                }
+            }
+        }
         // the same path with as few parentheses as the documented precedence allows (`a || b && c`):
         // whatever structure the parser gives it, it must denote the same items
         let min = print_path_min_parens(&p);
